@@ -1,7 +1,7 @@
 (* Evaluators used by the correspondence shards of C07. A case carries what a
    scripted peer put on the wire, how the bytes were cut into reads, and what
    was observed on the real tcp/client.Conn. *)
-From Coq Require Import ZArith NArith List Bool.
+From Coq Require Import ZArith NArith List Bool Lia.
 From GoCoap Require Import Base.Cases Base.Bytes Gen.StreamConsts Stream.Model Stream.Spec.
 Import ListNotations.
 Open Scope Z_scope.
@@ -11,10 +11,31 @@ Inductive citem :=
 | Msg (code : Z) (tok : list Z) (opts : list (Z * list Z)) (psalt plen : Z)
 | Raw (hdr : list Z) (bsalt blen : Z).
 
+(* Base.Bytes.gen_body without a division per byte (vm_compute cost) *)
+Fixpoint gen_fast (n : nat) (x : Z) : list Z :=
+  match n with
+  | O => []
+  | S n' => x :: gen_fast n' (let y := x + 7 in if y <? 251 then y else y - 251)
+  end.
+
+Local Ltac Zify.zify_post_hook ::= Z.div_mod_to_equations.
+
+Lemma gen_fast_from n : forall i salt, gen_fast n ((7 * i + salt) mod 251) = gen_body_from n i salt.
+Proof.
+  induction n as [|n IH]; intros i salt; cbn [gen_fast gen_body_from]; [reflexivity|].
+  f_equal. rewrite <- IH. f_equal. cbv zeta.
+  destruct (Z.ltb_spec ((7 * i + salt) mod 251 + 7) 251) as [Hlt|Hge]; lia.
+Qed.
+
+Lemma gen_fast_eq salt n : gen_fast n (salt mod 251) = gen_body salt n.
+Proof. unfold gen_body. rewrite <- gen_fast_from. f_equal. Qed.
+
+Definition body_of (salt n : Z) : list Z := gen_fast (Z.to_nat n) (salt mod 251).
+
 Definition to_sitem (c : citem) : sitem :=
   match c with
-  | Msg code tok opts s n => SMsg (MkFrame code tok opts (gen_body s (Z.to_nat n)))
-  | Raw h s n => SRaw (h ++ gen_body s (Z.to_nat n))
+  | Msg code tok opts s n => SMsg (MkFrame code tok opts (body_of s n))
+  | Raw h s n => SRaw (h ++ body_of s n)
   end.
 
 (* error classes as the harness writes them: 0 none / end of stream, 1 max
@@ -37,7 +58,7 @@ Inductive case :=
          (o_acc o_hand : list obs) (o_sig : list Z) (o_err o_reads o_bytes o_badreq : Z).
 
 Definition obs_of_item (m : mitem) : obs :=
-  Ob (m_code m) (blen (m_tok m)) (csum (m_tok m)) (blen (m_pay m)) (csum (m_pay m)).
+  Ob (m_code m) (blen (m_tok m)) (fsum (m_tok m)) (blen (m_pay m)) (fsum (m_pay m)).
 
 (* cut a byte string by a list of sizes *)
 Fixpoint cut (sizes : list Z) (s : list Z) : list (list Z) :=
@@ -61,7 +82,7 @@ Definition agrees (c : case) : bool :=
     let chunks := unrle rchunks in
     let s := stream_of items in
     (* the bytes the peer sent are the RFC encoding of the items *)
-    (blen s =? slen) && (csum s =? scs) &&
+    (blen s =? slen) && (fsum s =? scs) &&
     (* the chunks cover the stream and respect the read-buffer size *)
     (sum chunks =? slen) && forallb (fun n => (0 <=? n) && (n <=? cache)) chunks &&
     (o_badreq =? 0) &&
